@@ -12,12 +12,23 @@ def run_batches(scenarios, exes, workdir, batch=40, module="CatTrace", keep=Fals
     byk = {}
     for s in scenarios:
         byk.setdefault(s.qcap, []).append(s)
+
+    def weight(s):
+        return 5 + sum(8 if l.startswith("roundtrip") else 3 if l.startswith("settle") else 1 for l in s.lines)
+
+    total = sum(weight(s) for s in scenarios) or 1
+    target = max(total / (2.0 * NCPU), 60)
     jobs = []
     for k, lst in byk.items():
-        for i in range(0, len(lst), batch):
-            chunk = lst[i:i + batch]
-            base = os.path.join(workdir, "b%d_%d" % (k, i // batch))
-            jobs.append({"k": k, "sids": [s.sid for s in chunk], "scn": base + ".scn", "trace": base + ".ndjson", "chunk": chunk})
+        chunk, w, idx = [], 0, 0
+        for s in lst + [None]:
+            if s is None or (chunk and (w + weight(s) > target or len(chunk) >= batch)):
+                base = os.path.join(workdir, "b%d_%d" % (k, idx))
+                jobs.append({"k": k, "sids": [x.sid for x in chunk], "scn": base + ".scn", "trace": base + ".ndjson", "chunk": chunk})
+                chunk, w, idx = [], 0, idx + 1
+            if s is not None:
+                chunk.append(s)
+                w += weight(s)
 
     def work(j):
         write_scenarios(j["scn"], j["chunk"])
